@@ -211,6 +211,9 @@ def gen_items(tier, seed):
         items.append(('G9', {'kind': 'utxo250_equal', 'strategy': st}))
         if not quick or st != 'random_draw':
             items.append(('G9', {'kind': 'utxo250_distinct', 'strategy': st}))
+    # G11: two builds requested together (asyncio.gather, default schedule only - interleavings are C14's)
+    for w in [['1'], ['1', '1'], ['5', '1'], ['cent', '1', '1'], ['1', '1', '1', '1']]:
+        items.append(('G11', {'syms': w, 'fpb': 50, 'strategies': ALL_STRATEGIES + [None]}))
     # G10: histories on one ledger (anything remembered about a UTXO across builds must follow the database)
     for a in history_items(tier):
         items.append(('G10', dict(a, tier=tier)))
@@ -278,6 +281,17 @@ def expand(group, a, seed):
         return list(single_cases(a, seed))
     if group == 'G10':
         return list(history_cases(a, a['tier'], seed))
+    if group == 'G11':
+        coins = mk_coins(a['syms'], a['fpb'])
+        eff = sorted(e for e in effective_of(coins, a['fpb']) if e > 0)
+        big_c = (10 + PRICE_BYTES) * a['fpb']
+        out = []
+        for st in a['strategies']:
+            for d in sorted({eff[0] - big_c - DUST - 1, eff[0], eff[-1] // 2, sum(eff) // 2, sum(eff) - big_c - DUST - 1}):
+                if d > 0:
+                    out.append({'coins': coins, 'shape': 'pay1', 'deficit': d, 'strategy': st, 'fpb': a['fpb'], 'fpnc': 0,
+                                'pre': False, 'used_change': 0, 'perm': 0, 'choice': seed, 'concurrent': 2})
+        return out
     fpb = a['fpb']
     coins = mk_coins([tuple(s) if isinstance(s, list) else s for s in a['syms']], fpb)
     if a.get('decoys'):
@@ -909,6 +923,64 @@ def judge(case, obs, res):
     return lines
 
 
+def eval_pair(case, res):
+    """G11: the same payment requested twice at once on a fresh wallet; default schedule.  Judged: only
+    InsufficientFundsError may be raised, no output is an input of both transactions (the later one would
+    have added a reserved output), inputs come from the unspent unreserved set, fee bounds, bookkeeping."""
+    import asyncio
+    from refs import fee_ref
+    from lbry.error import InsufficientFundsError
+    res.count('evaluations')
+    res.count('executions')
+    h = make_harness(case)
+    try:
+        before = h.rows()
+        acc = h.account.public_key.address
+        reqs = [build_request(h, case) for _ in range(case['concurrent'])]
+        if reqs[0][0] is None:
+            res.count('skipped_target_not_positive')
+            return
+        results = h.run(asyncio.gather(*[r[0] for r in reqs], return_exceptions=True))
+        after = h.rows()
+    finally:
+        h.close()
+    strat, fpb = case['strategy'], case['fpb']
+
+    def viol(sig, what):
+        res.violation(dict(sig, concurrent=case['concurrent']), what + ' [two builds requested together]', case)
+    spendable = {k for k, r in before.items() if not r['spent'] and not r['is_reserved'] and r['account'] == acc}
+    used = []
+    for r in results:
+        if isinstance(r, InsufficientFundsError):
+            continue
+        if isinstance(r, BaseException):
+            viol({'kind': 'unexpected-exception', 'type': type(r).__name__, 'site': lbry_site(r.__traceback__)},
+                 f'Transaction funding raised {r!r:.150} (strategy {strat})')
+            continue
+        t = fee_ref.parse_tx(bytes(r.raw))
+        ids = [i['txoid'] for i in t['inputs']]
+        if any(k not in spendable for k in ids):
+            viol({'kind': 'bad-input', 'why': 'not-spendable', 'strategy_is_sqlite': strat == 'sqlite'},
+                 f'an added input is not an unspent, unreserved output of the funding account ({strat})')
+            continue
+        fee = sum(before[k]['amount'] for k in ids) - sum(o['amount'] for o in t['outputs'])
+        if fee < fee_ref.min_fee(t, fpb, 0) or fee > fee_ref.max_fee(t, fpb, 0):
+            viol({'kind': 'fee-out-of-bounds'}, f'fee {fee} outside [{fee_ref.min_fee(t, fpb, 0)}, {fee_ref.max_fee(t, fpb, 0)}] ({strat})')
+        used.append(set(ids))
+    if len(used) == 2 and used[0] & used[1]:
+        viol({'kind': 'bad-input', 'why': 'reserved-by-concurrent-build', 'strategy_is_sqlite': strat == 'sqlite'},
+             f'both transactions spend {sorted(used[0] & used[1])[0]}: the later build added an output that was already '
+             f'reserved ({strat})')
+    reserved_after = {k for k, r in after.items() if r['is_reserved']}
+    want = {k for k, r in before.items() if r['is_reserved']}.union(*used) if used else {k for k, r in before.items() if r['is_reserved']}
+    if reserved_after != want:
+        viol({'kind': 'reservation-bookkeeping', 'strategy_is_sqlite': strat == 'sqlite'},
+             f'is_reserved after two concurrent builds != inputs of the built transactions ({strat})')
+    if len(used) == 2:
+        res.witness('two_concurrent_builds_both_funded')
+    res.distinct_add('nontrivial', ('pair', tuple(map(repr, case['coins'])), case['deficit'], strat))
+
+
 def run_and_judge(case, res, session):
     """One execution + verdict.  A violation seen on a reused wallet is only reported if a fresh wallet
     gives the same verdict (otherwise the harness leaked state: hard error)."""
@@ -975,7 +1047,10 @@ def work(item, res):
             cases.sort(key=Session.key_of)      # stable: keeps simplest-first order inside one wallet
             for case in cases:
                 case['full_perms'] = full_perms
-                eval_case(case, res, session)
+                if case.get('concurrent'):
+                    eval_pair(case, res)
+                else:
+                    eval_case(case, res, session)
             res.count('wallets')
     finally:
         session.close()
@@ -987,7 +1062,7 @@ def work(item, res):
 def run(ctx):
     items = gen_items(ctx.tier, ctx.seed)
     # group generator items into pool items of comparable cost
-    weights = {'G1': 12, 'G2': 12, 'G3': 8, 'G4': 2, 'G5': 12, 'G6': 1, 'G7': 10, 'G8': 4, 'G9': 1, 'G10': 4}
+    weights = {'G1': 12, 'G2': 12, 'G3': 8, 'G4': 2, 'G5': 12, 'G6': 1, 'G7': 10, 'G8': 4, 'G9': 1, 'G10': 4, 'G11': 5}
     pool_items = []
     by_group = {}
     for g, a in items:
@@ -1024,7 +1099,8 @@ def run(ctx):
         exhaustive=True,
         bounds={'max_multiset': 3 if ctx.quick else 5, 'strategies_in_core_product': QUICK_STRATEGIES if ctx.quick else ALL_STRATEGIES,
                 'fee_per_byte': [1, 50, 1000], 'generator_items': len(items)},
-        assumptions=['default schedule only (one build at a time; concurrency is C14)',
+        assumptions=['default schedule only (one build at a time; G11 requests two builds together on the default '
+                     'schedule, every other interleaving is C14)',
                      'accounts are hierarchical-deterministic with gaps 2/2; sqlite :memory: trusted',
                      'fee upper bound = byte/name fee on placeholder-signature sizes + 6 change-output costs + DUST; a '
                      'change-output cost is what the wallet itself charges: (10 + 46) bytes x fee_per_byte (it prices the '
@@ -1039,13 +1115,19 @@ def run(ctx):
         expected_witnesses=['exact_match_no_change', 'inside_cost_of_change_window', 'single_input_with_change',
                             'accumulation_of_several_inputs', 'random_draw_reached', 'new_change_key_derived',
                             '250_inputs', '250_outputs', 'failure_after_outputs_were_reserved',
-                            'failure_in_round_2_or_later_after_reserving', 'history_confirmed_coin_used_by_only_confirmed', 'change_of_exactly_dust_plus_1', 'largest_surplus_without_change'],
+                            'failure_in_round_2_or_later_after_reserving', 'history_confirmed_coin_used_by_only_confirmed',
+                            'two_concurrent_builds_both_funded', 'change_of_exactly_dust_plus_1', 'largest_surplus_without_change'],
     )
 
 
 def replay(data):
     from vf.core import Result
     res = Result()
+    if data.get('concurrent'):
+        eval_pair(data, res)
+        lines = [f"two builds requested together: strategy {data['strategy']} deficit {data['deficit']} coins "
+                 f"{[c[0] for c in data['coins']]}"] + ['VIOLATION ' + v['what'] for v in res.violations.values()]
+        return bool(res.violations), '\n'.join(lines)
     obs = execute(data)
     lines = [f"case: shape {data['shape']} strategy {data['strategy']} fee_per_byte {data['fpb']} deficit {data.get('deficit')} "
              f"pre-chosen {data['pre']} coins {[(c[0], c[1], c[2], c[3]) for c in data['coins']][:8]}"]
